@@ -184,7 +184,7 @@ func TestVerifC25(t *testing.T) {
 				}
 				if k == 0 || !vfC25AnyAgg(events[:k]) {
 					// nothing observable will be sent: wait generously
-					if time.Since(start) > 8*timer {
+					if time.Since(start) > 25*timer {
 						break
 					}
 				}
